@@ -386,6 +386,7 @@ class InterruptPlan:
         self.lines = 0
         self.blocks = 0
         self.rpcs = 0
+        self._seen_after = False
         self.wait_steps = 0
         self.starve_after = starve_after
         self.simos = None
@@ -411,6 +412,11 @@ class InterruptPlan:
     def on_main_line(self):
         s = self.cur()
         if s is not None and s['mode'] == 'line':
+            if s.get('after') and not self._seen_after:
+                # instants are only counted once the named event (e.g. the first 'submit') has been recorded
+                if not any(e[0] == s['after'] for e in self.rec.events):
+                    return
+                self._seen_after = True
             self.lines += 1
             if self.lines > s['k']:
                 self._deliver(True)
